@@ -400,10 +400,12 @@ def model_claims():
     if not ok:
         return None, out[-3000:]
     p = common.run(["timeout", "300", "coqc", "-Q", ".", "IMB", "Extract/PrintSafeData.v"], cwd=common.COQDIR, timeout=330)
-    txt = p.stdout + p.stderr
-    claims = set(re.findall(r'\("([^"]+)",\s*\("([^"]+)",\s*"([^"]+)"\)\)', txt))
-    if p.returncode != 0 or not claims:
-        return None, txt[-3000:]
+    txt = p.stdout
+    # the value printed is a list of (string * (string * string)): take the string literals in order
+    lits = re.findall(r'"([^"]*)"', txt.split(": list", 1)[0])
+    if p.returncode != 0 or not lits or len(lits) % 3:
+        return None, (txt + p.stderr)[-3000:]
+    claims = set((lits[i], lits[i + 1], lits[i + 2]) for i in range(0, len(lits), 3))
     return claims, ""
 
 
@@ -439,8 +441,16 @@ def kv_of(line):
     return d
 
 
+JOB_API = ("get_next_job", "submit_job", "submit_job_nocheck", "get_completed_job", "flush_job", "queue_size",
+           "get_next_burst", "submit_burst", "submit_burst_nocheck", "flush_burst", "submit_cipher_burst",
+           "submit_cipher_burst_nocheck", "submit_hash_burst", "submit_hash_burst_nocheck", "submit_aead_burst",
+           "submit_aead_burst_nocheck", "final")
+
+
 def hit_signature(h, suite):
-    """narrow enough to tell two defects apart, wide enough to survive other seeds"""
+    """narrow enough to tell two defects apart, wide enough to survive other seeds.
+    Residues left by a key-preparation helper or a direct-API function are named by that function;
+    residues of the job / burst API by the algorithms of the suite."""
     where = h["where"]
     if h["kind"] == "reg":
         where = re.sub(r"\d+\+\d+$", "", where)           # zmm3+16 -> zmm
@@ -454,7 +464,10 @@ def hit_signature(h, suite):
     m = re.match(r"c(\d+)-h(\d+)-", suite)
     fam = h["var"].split(":")[0]
     left = h["leftby"].split(":", 1)[1]
-    return "hit:%s:c%s/h%s:%s:%s:%s:%s" % (fam, m.group(1), m.group(2), h["kind"], where, h["secret"].split(":")[1].split("+")[0], left)
+    cls = h["secret"].split(":")[1].split("+")[0]
+    if left in JOB_API:
+        return "hit:%s:job-api:c%s/h%s:%s:%s:%s" % (fam, m.group(1), m.group(2), h["kind"], where, cls)
+    return "hit:%s:%s:%s:%s:%s" % (fam, left, h["kind"], where, cls)
 
 
 def run_all(k13, slots, scheds, variants, tag="main"):
@@ -506,6 +519,51 @@ def analyse(results, scheds):
             cur = next((s for s in sids if s not in ended), None)
             crashes.append(dict(var=r["var"], rc=r["rc"], err=r["err"][-400:], sid=cur, path=r["path"]))
     return hits, dirty, used, sched_rows, crashes, totals
+
+
+def rekey(s, seed, what):
+    """copy of schedule s with fresh keys (what='key') or fresh message text (what='text')"""
+    rng = Rng(seed)
+    items = []
+    for it in s.items:
+        it = dict(it)
+        if what == "key":
+            it["key"], it["akey"] = rng.bytes(len(it["key"])), rng.bytes(len(it["akey"]))
+        else:
+            m = bytearray(rng.bytes(len(it["msg"])))
+            if it["cipher"] == 11 or it["hash"] == 19:
+                m[:8] = it["msg"][:8]
+            it["msg"] = bytes(m)
+        items.append(it)
+    return Sched(s.sid, s.ep, items, [None if what == "text" else p for p in s.pts], s.suite, s.shape)
+
+
+def dirty_now(k13, slots, s, var, ooo, field, tag):
+    r = run_variant((k13, var, s.text(), slots, tag))
+    for line in r["out"].splitlines():
+        if line.startswith("DIRTY "):
+            d = kv_of(line)
+            if d["ooo"] == ooo and d["field"] == field:
+                return d
+    return None
+
+
+def confirm_dirty(k13, slots, s, var, ooo, field):
+    """property-specific oracle for a free lane that is not reset: does what it keeps depend on the key or on
+    the text of the jobs (then it is derived key material / text), and is it absent from the public output?"""
+    a = dirty_now(k13, slots, s, var, ooo, field, "confA")
+    if a is None:
+        return {"reproduced_alone": False}
+    b = dirty_now(k13, slots, rekey(s, 1234567, "key"), var, ooo, field, "confB")
+    out = {"reproduced_alone": True, "now": a.get("now", "")[:256], "public": a.get("public"),
+           "key_sensitive": b is None or b.get("now") != a.get("now")}
+    if all(it["dir"] == 1 for it in s.items):
+        c = dirty_now(k13, slots, rekey(s, 7654321, "text"), var, ooo, field, "confC")
+        out["text_sensitive"] = c is None or c.get("now") != a.get("now")
+    pu, un = (int(x) for x in a.get("public", "0/0").split("/"))
+    out["all_public"] = un > 0 and pu == un
+    out["secret_dependent"] = bool((out.get("key_sensitive") or out.get("text_sensitive")) and not out["all_public"])
+    return out
 
 
 def sched_replay_obj(s, var, extra):
@@ -595,21 +653,33 @@ def main(tier, seed):
     # storage invariant against the model
     dirty_claimed = collections.Counter()
     dirty_unclaimed = collections.Counter()
+    cand = {}
     for d in dirty:
         key = (arch_class(d["var"]), d["ooo"], d["field"])
         if claims is not None and key in claims:
             dirty_claimed[key] += 1
-            sig = "dirty:%s:%s:%s" % key
             s = bysid.get(d["sid"])
-            report(sig, sched_replay_obj(s, d["var"], {"kind": "model-correspondence", "dirty": d,
-                                                       "theorem": "ooo_lane_clean_after_completion / ooo_clean_when_idle (Props/Properties_C13.v)"}),
-                   "free lane of %s keeps non-zero %s (%s), the model claims it clean; no secret window found there: no-failing-input-found"
-                   % (d["ooo"], d["field"], d["var"]) if not any(h["kind"] == "mgr" and h["where"].startswith(d["ooo"] + "." + d["field"].split(".")[0])
-                                                                   for h in hits if h["var"] == d["var"])
-                   else "free lane of %s keeps non-zero %s (%s)" % (d["ooo"], d["field"], d["var"]),
-                   "dirty_%s_%s_%s" % (key[0], key[1], key[2].replace(".", "_")))
+            # prefer the schedule that produced the residue (not one that merely inherited it), small ones first
+            rank = (int(d["first_call"]) <= 1, len(s.items) if s else 999)
+            if key not in cand or rank < cand[key][0]:
+                cand[key] = (rank, d, s)
         else:
             dirty_unclaimed[key] += 1
+    confirmations = {}
+    for key, (rank, d, s) in sorted(cand.items()):
+        sig = "dirty:%s:%s:%s" % key
+        conf = confirm_dirty(k13, slots, s, d["var"], d["ooo"], d["field"]) if s else {}
+        confirmations[sig] = conf
+        obj = sched_replay_obj(s, d["var"], {"kind": "model-correspondence", "dirty": d, "oracle": conf,
+                                             "theorem": "ooo_free_lane_clean / ooo_clean_when_idle (Props/Properties_C13.v)"})
+        if conf.get("secret_dependent"):
+            note = ("free lane of %s keeps %s whose content depends on the %s of the completed jobs and is not public output (%s, %s)"
+                    % (d["ooo"], d["field"], "key" if conf.get("key_sensitive") else "text", d["var"], s.suite))
+        else:
+            note = ("free lane of %s keeps non-zero %s (%s) although the model claims it reset; the content is %s: no-failing-input-found"
+                    % (d["ooo"], d["field"], d["var"],
+                       "public output only" if conf.get("all_public") else "not shown to depend on key or text"))
+        report(sig, obj, note, "dirty_%s_%s_%s" % (key[0], key[1], key[2].replace(".", "_")))
     for c in crashes:
         s = bysid.get(c["sid"])
         report("crash:%s:%s" % (c["var"], s.suite if s else "?"),
@@ -640,6 +710,7 @@ def main(tier, seed):
         "claimed_fields_never_exercised": [":".join(k) for k in (vacuous or [])][:80],
         "dirty_claimed": {":".join(k): v for k, v in dirty_claimed.items()},
         "dirty_not_claimed_by_model": {":".join(k): v for k, v in dirty_unclaimed.items()},
+        "dirty_claimed_oracle": confirmations,
         "decrypt_items_without_ciphertext": nbad, "scanner_selfcheck": scanner_ok,
         "samples": [{"sid": s.sid, "suite": s.suite, "shape": s.shape, "ep": s.ep, "first_item": item_line(s.items[0])[:300]}
                     for s in (scheds[0], scheds[len(scheds) // 2], scheds[-1])],
